@@ -86,6 +86,18 @@ def swap_part_over_aligned(case):
     return False
 
 
+def swap_greedy_tail_return_rounded(case):
+    """swap of a message with a greedy tail converted the right bytes and touched nothing else, but returned the
+    unlimited member's offset rounded up to the root struct's alignment instead of the offset itself"""
+    if not str(case.get("kind", "")).startswith("swap of a message with a greedy tail"):
+        return False
+    off, ret = case.get("unlimited_member_offset"), case.get("ret")
+    if off is None or ret is None or not case.get("bytes_ok") or not case.get("canary_ok"):
+        return False
+    a = _wire_align(S.from_json(case["schema"]))
+    return ret != off and ret == -(-off // a) * a
+
+
 def enum_out_of_range_ubsan(case):
     return "not a valid value for type" in str(case.get("crash", ""))
 
@@ -126,5 +138,6 @@ def counter_narrower_than_count(case):
         return False
 
 
-PREDICATES = {f.__name__: f for f in (optional_of_struct_with_vector, swap_part_over_aligned, enum_out_of_range_ubsan,
+PREDICATES = {f.__name__: f for f in (optional_of_struct_with_vector, swap_part_over_aligned, swap_greedy_tail_return_rounded,
+                                        enum_out_of_range_ubsan,
                                         has_nonfixed_bytes_field, counter_narrower_than_count)}
